@@ -552,9 +552,9 @@ func main() {
 		}()
 	}
 	wg.Wait()
-	rounds := run.Pick(3, 20)
+	rounds := run.Pick(3, 10)
 	for i := 0; i < rounds; i++ {
-		concurrent(run, uint64(i), run.Pick(50000, 300000))
+		concurrent(run, uint64(i), run.Pick(50000, 200000))
 	}
 	run.Set("histories", nh+nbig)
 	run.Set("concurrent_rounds", rounds)
